@@ -84,7 +84,7 @@ Init ==
   /\ st = [fs |-> "unset", disp |-> "unset", fc |-> "unset", born |-> "unset", eps |-> "unset"]
   /\ comp = "F"
   /\ args = [isCompact |-> TRUE, produceFc |-> TRUE, isNac |-> TRUE, nacArg |-> FALSE, bornFile |-> FALSE,
-             fsFile |-> 0, fcFile |-> "none", calcArg |-> "none"]
+             fsFile |-> 0, fcFile |-> "none", calcArg |-> "none", cellArg |-> "none"]
   /\ env = [FS |-> 0, FC |-> "none", H5 |-> "none", BORN |-> FALSE]
   /\ yaml = NoYaml /\ rd = NoYaml /\ ld = NoLd
 
@@ -104,9 +104,12 @@ Save ==
 
 (* load_yaml chooses the decompressor from the file name that save() returned; *)
 (* PhonopyYamlLoader: NAC parameters exist only if both tensors are there.     *)
+(* cui/load.py: when the crystal structure is given by an argument (unitcell / supercell),    *)
+(* the phonopy_yaml file is not read at all.                                                  *)
 ReadYaml ==
   /\ pc = "read"
-  /\ rd' = [yaml EXCEPT !.nac = IF yaml.nac.born /\ yaml.nac.eps THEN yaml.nac ELSE NoNacW]
+  /\ rd' = IF args.cellArg # "none" THEN [NoYaml EXCEPT !.container = yaml.container]
+           ELSE [yaml EXCEPT !.nac = IF yaml.nac.born /\ yaml.nac.eps THEN yaml.nac ELSE NoNacW]
   /\ pc' = "construct"
   /\ UNCHANGED <<obj, st, comp, args, env, yaml, ld>>
 
@@ -184,30 +187,32 @@ AskedFc(o, s) == o.fc # "none" /\ (s.fc = "T" \/ (s.fc = "unset" /\ ~ForcesIn(o.
 AskedNac(o, s) == o.nac.kind # "none" /\ On(s.born) /\ On(s.eps)
 
 NoNacOverride(a) == ~a.nacArg /\ ~a.bornFile /\ a.isNac
+(* the saved file is the source of the crystal structure (documented: otherwise it is not parsed) *)
+FromFile(a) == a.cellArg = "none"
 
 Ok(r) == r.status = "ok"
 
 (* calculator and its default units *)
-ReqCalculator(o, a, r) == Ok(r) /\ a.calcArg = "none" => r.calc = o.calc /\ r.units = o.calc
+ReqCalculator(o, a, r) == Ok(r) /\ a.calcArg = "none" /\ FromFile(a) => r.calc = o.calc /\ r.units = o.calc
 ReqUnitsFollowCalculator(r) == Ok(r) => r.units = r.calc
 
 (* the dataset that was asked to be written comes back, same type, forces, energies *)
-ReqDataset(o, s, r) ==
-  Ok(r) /\ AskedForces(o, s) =>
+ReqDataset(o, s, a, r) ==
+  Ok(r) /\ AskedForces(o, s) /\ FromFile(a) =>
     r.ds = [src |-> "yaml", type |-> o.ds.type, forces |-> TRUE, energies |-> o.ds.energies]
 
 (* displacements only: they come back unless forces for them are supplied from elsewhere *)
 ReqDisplacements(o, s, a, e, r) ==
-  Ok(r) /\ AskedDisps(o, s) /\ ~AskedForces(o, s) /\ a.fsFile = 0 /\ e.FS = 0 =>
+  Ok(r) /\ AskedDisps(o, s) /\ ~AskedForces(o, s) /\ a.fsFile = 0 /\ e.FS = 0 /\ FromFile(a) =>
     r.ds = [src |-> "yaml", type |-> o.ds.type, forces |-> FALSE, energies |-> o.ds.energies]
 
 (* force constants that were asked to be written come back, in the requested layout *)
 ReqForceConstants(o, s, a, r) ==
-  Ok(r) /\ AskedFc(o, s) => r.fc.src = "yaml" /\ r.fc.layout = Layout(a)
+  Ok(r) /\ AskedFc(o, s) /\ FromFile(a) => r.fc.src = "yaml" /\ r.fc.layout = Layout(a)
 
 (* NAC parameters come back with their method and their own factor *)
 ReqNac(o, s, a, r) ==
-  Ok(r) /\ AskedNac(o, s) /\ NoNacOverride(a) =>
+  Ok(r) /\ AskedNac(o, s) /\ NoNacOverride(a) /\ FromFile(a) =>
     r.nac = [src |-> "yaml", method |-> Method(o.nac.kind), factor |-> IF o.nac.factor THEN "own" ELSE "default"]
 
 (* "hence the same phonons": whenever the saved file carries force data, the force    *)
@@ -216,7 +221,7 @@ ReqNac(o, s, a, r) ==
 (* matter of the documented priority list, see DocOrder* below)                        *)
 NoFcOffered(a, e) == a.fcFile = "none" /\ e.FC = "none" /\ e.H5 = "none"
 ReqPhononsFromSaved(o, s, a, e, r) ==
-  Ok(r) /\ (AskedFc(o, s) \/ (AskedForces(o, s) /\ a.produceFc /\ NoFcOffered(a, e))) =>
+  Ok(r) /\ FromFile(a) /\ (AskedFc(o, s) \/ (AskedForces(o, s) /\ a.produceFc /\ NoFcOffered(a, e))) =>
     \/ r.fc.src = "yaml"
     \/ r.fc.src = "produced" /\ r.ds.src = "yaml"
 (* and when the saved file carries no force data and nothing else is offered, none appear *)
@@ -229,10 +234,14 @@ ReqSaveRule(o, s, y) ==
   (o.fc # "none" /\ ~ForcesIn(o.ds) /\ s.fc # "F") => y.fc = o.fc
 
 (* what is in the saved file is never replaced by a file that happens to be in the directory *)
-ReqNoAmbientCapture(o, s, r) ==
-  /\ r.ds.src = "FORCE_SETS" => ~AskedForces(o, s)
-  /\ r.fc.src \in {"FORCE_CONSTANTS", "hdf5"} => ~AskedFc(o, s)
-  /\ r.nac.src = "BORN" => ~AskedNac(o, s)
+ReqNoAmbientCapture(o, s, a, r) ==
+  FromFile(a) =>
+    /\ r.ds.src = "FORCE_SETS" => ~AskedForces(o, s)
+    /\ r.fc.src \in {"FORCE_CONSTANTS", "hdf5"} => ~AskedFc(o, s)
+    /\ r.nac.src = "BORN" => ~AskedNac(o, s)
+(* with the structure given by argument nothing of the saved file is used *)
+ReqCellArgument(a, r) ==
+  Ok(r) /\ ~FromFile(a) => r.ds.src # "yaml" /\ r.fc.src # "yaml" /\ r.nac.src # "yaml" /\ r.calc = a.calcArg
 
 (* an explicit argument is never overridden by an ambient file *)
 ReqExplicitBeatsAmbient(a, r) ==
@@ -247,10 +256,10 @@ ReqLoads(r, solver) ==
 
 Requirement(o, s, a, e, y, r) ==
   /\ ReqCalculator(o, a, r) /\ ReqUnitsFollowCalculator(r)
-  /\ ReqDataset(o, s, r) /\ ReqDisplacements(o, s, a, e, r)
+  /\ ReqDataset(o, s, a, r) /\ ReqDisplacements(o, s, a, e, r)
   /\ ReqForceConstants(o, s, a, r) /\ ReqNac(o, s, a, r)
   /\ ReqPhononsFromSaved(o, s, a, e, r) /\ ReqNothingInvented(o, s, a, e, r) /\ ReqSaveRule(o, s, y)
-  /\ ReqNoAmbientCapture(o, s, r) /\ ReqExplicitBeatsAmbient(a, r) /\ ReqLoads(r, HasFcSolver)
+  /\ ReqNoAmbientCapture(o, s, a, r) /\ ReqCellArgument(a, r) /\ ReqExplicitBeatsAmbient(a, r) /\ ReqLoads(r, HasFcSolver)
 
 -----------------------------------------------------------------------------
 (* invariants of the step machine *)
@@ -258,12 +267,12 @@ Done == pc = "done"
 TypeOK == pc \in {"choose", "save", "read", "construct", "nac", "dataset", "fc", "produce", "done"}
 
 InvCalculator == Done => ReqCalculator(obj, args, ld) /\ ReqUnitsFollowCalculator(ld)
-InvDataset == Done => ReqDataset(obj, st, ld) /\ ReqDisplacements(obj, st, args, env, ld)
+InvDataset == Done => ReqDataset(obj, st, args, ld) /\ ReqDisplacements(obj, st, args, env, ld)
 InvForceConstants == Done => ReqForceConstants(obj, st, args, ld)
 InvNac == Done => ReqNac(obj, st, args, ld)
 InvPhononsFromSaved == Done => ReqPhononsFromSaved(obj, st, args, env, ld) /\ ReqNothingInvented(obj, st, args, env, ld)
 InvSaveRule == Done => ReqSaveRule(obj, st, yaml)
-InvNoAmbientCapture == Done => ReqNoAmbientCapture(obj, st, ld)
+InvNoAmbientCapture == Done => ReqNoAmbientCapture(obj, st, args, ld) /\ ReqCellArgument(args, ld)
 InvExplicitBeatsAmbient == Done => ReqExplicitBeatsAmbient(args, ld)
 InvLoads == Done => ReqLoads(ld, HasFcSolver)
 (* the written file holds nothing the object does not have *)
